@@ -509,7 +509,7 @@ impl Property for C13 {
     }
     fn runs(&self, tier: Tier) -> u64 {
         match tier {
-            Tier::Quick => 8_000,
+            Tier::Quick => 18_000,
             Tier::Thorough => 400_000,
         }
     }
